@@ -32,6 +32,10 @@ func run(e *Env) error {
 	if err := s.ZeroCases(e, e.N(6000, 40000)); err != nil {
 		return err
 	}
+	// objects that already hold a value (other preset, longer/shorter, after a failed decode) decode like fresh ones
+	if err := s.RecycledCases(e, e.N(500, 2500), e.N(3000, 20000), e.N(3, 1)); err != nil {
+		return err
+	}
 	if err := s.CodecCases(e, e.N(700, 3000), e.N(2, 6), 0, false); err != nil {
 		return err
 	}
